@@ -280,10 +280,238 @@ def run_one(item, extra):
     return total
 
 
+# ------------------------------------------------------------------------------------------
+# sampled slice: repeated crashes, crash during recovery, Redis / blocking / two instances / non-canonical schedules
+# ------------------------------------------------------------------------------------------
+MULTI_POLICIES = ["canonical", "shuffle", "latency-small", "ties", "pct"]
+
+
+def multi_case(i, tier):
+    """Seeded case: scenario (+ a second, later execution), deployment, and a crash plan of 2-4 crashes."""
+    seed = common.run_seed(4000000 + i)
+    rng = random.Random(seed)
+    if rng.random() < 0.6:
+        name = rng.choice(sorted(corpus.CORPUS))
+        scn = corpus.scenario(name)
+        fam = "corpus:" + name
+    else:
+        prog = E.gen_program(rng, rng.choice(["sequential", "fanout_ok", "retry"]), tier)
+        scn = E.scenario_of(prog, {"execution_ttl": 120}, 1, "STANDARD")
+        scn["machines"]["m"]["family"] = fam = "generated"
+        mo = E.model_for(scn)
+        if E.classify(mo, allow_single_failure=True, definition=prog["definition"]):
+            return None, seed
+    cfg = E.policy_cfg(rng.choice(MULTI_POLICIES))
+    cfg["execution_ttl"] = rng.choice([120, 300])
+    cfg["store"] = rng.choice(["file", "file", "redis"])
+    cfg["transport"] = rng.choice(["asyncio", "asyncio", "blocking"])
+    cfg["nodes"] = 2 if (cfg["store"] == "redis" and rng.random() < 0.4) else 1
+    cfg["queue_type"] = rng.choice(["classic", "quorum"])
+    scn["config"] = cfg
+    if rng.random() < 0.5:
+        ex = dict(scn["executions"][0])
+        ex["name"] = "e2"
+        ex["at"] = rng.choice([0.0, 0.5, 1.0, 2.5])
+        ex["node"] = rng.randint(0, 1)
+        scn["executions"].append(ex)
+    n = rng.choice([2, 2, 3, 4])
+    plan = []
+    for k in range(n):
+        kind = rng.choice(["step", "op", "op", "recover-op", "recover-step"])
+        if kind in ("step", "op"):
+            plan.append((kind, rng.randint(1, 60)))       # counted from the previous crash (or the first start call)
+        else:
+            plan.append((kind, rng.randint(1, 8)))        # counted from the restart: lands inside the recovery
+    downs = [rng.choice(DOWNTIMES) for _ in plan]
+    return {"scn": scn, "plan": plan, "downs": downs, "family": fam}, seed
+
+
+def run_multi_case(case, seed):
+    scn, plan, downs = case["scn"], [tuple(p) for p in case["plan"]], case["downs"]
+    state = {"k": 0, "ops": 0, "steps": 0, "armed": False, "crashes": 0, "restarts": 0, "recovering": False,
+             "crash_idle": [], "in_recovery": 0}
+
+    def before(res):
+        sim = res.sim
+        node = res.world.nodes[0]
+
+        def restart():
+            if node.dead:
+                node.restart()
+                sim.count("restart")
+                state["restarts"] += 1
+                state["ops"] = state["steps"] = 0
+                state["recovering"] = True
+
+        def do_crash(idle):
+            state["crash_idle"].append(idle)
+            state.setdefault("situations", set()).update(situation(res, node))
+            if state["recovering"] and plan[state["k"]][0].startswith("recover"):
+                state["in_recovery"] += 1
+            node.crash("injected")
+            sim.call_later(downs[state["k"]], restart, None, kind="fault", label="restart")
+            state["k"] += 1
+            state["crashes"] += 1
+            state["ops"] = state["steps"] = 0
+
+        def due(kind):
+            if state["k"] >= len(plan) or node.dead or not state["armed"]:
+                return False
+            pk, pn = plan[state["k"]]
+            if pk.startswith("recover"):
+                if state["restarts"] == 0:      # nothing to recover from yet: behaves like a plain point
+                    pk = pk[len("recover-"):]
+                elif state["restarts"] < state["crashes"]:
+                    return False
+                else:
+                    pk = pk[len("recover-"):]
+            return pk == kind and (state["ops"] if kind == "op" else state["steps"]) >= pn
+
+        def after():
+            if not state["armed"]:
+                if any(c["action"] == "StartExecution" for c in res.world.api.calls):
+                    state["armed"] = True
+                return
+            if node.dead:
+                return
+            state["steps"] += 1
+            if due("step"):
+                do_crash(node_idle(sim))
+                node.teardown()
+        sim.after_step.append(after)
+
+        def hook(name, nd):
+            if nd != NODE or name not in OPS or not state["armed"] or node.dead:
+                return
+            state["ops"] += 1
+            if due("op"):
+                do_crash(False)
+                raise SimCrash()
+        sim.broker.fault_hook = hook
+
+        def on_publish(ch, exchange, routing_key, body, props, queues, uid):
+            if routing_key.startswith("asl_workflow_events"):
+                try:
+                    state.setdefault("published", set()).add(json.loads(body)["context"]["Execution"]["Id"])
+                except (ValueError, KeyError, TypeError):
+                    pass
+        sim.broker.publish_hooks.append(on_publish)
+    mon = NotifyMonitor("C04", check_shape=False)
+    ttl = scn["config"].get("execution_ttl", 120)
+    res = run_scenario(scn, seed, monitors=[mon], before_run=before, horizon=ttl + 900 + 10 * len(plan))
+    return res, state, mon
+
+
+def check_multi(case, seed):
+    res, state, mon = run_multi_case(case, seed)
+    scn = case["scn"]
+    cfg = scn["config"]
+    ctx = "%s store=%s transport=%s nodes=%d policy=%s/%s plan=%s" % (
+        case["family"], cfg["store"], cfg["transport"], cfg["nodes"], cfg["policy"], cfg["latency"], case["plan"])
+    findings = []
+    for f in mon.findings:
+        if f["property"] != "C04" or f["rule"] in ("running-twice", "terminal-twice", "running-after-terminal",
+                                                    "terminal-before-running"):
+            continue
+        f = dict(f)
+        f["detail"] = ctx + ": " + f["detail"]
+        f["witness"] = None
+        if f["rule"] == "never-terminal" and cfg["transport"] == "blocking":
+            arn = f["detail"].split(": ")[-1].split(" ")[0]
+            if arn not in state.get("published", ()) and arn not in mon.seq:
+                # the Flask front end hands the start event to the connection thread (add_callback_threadsafe) and
+                # answers 200 at once: the engine died before that callback ran (recorded finding)
+                f["witness"] = "blocking-frontend:start-acknowledged-before-publish"
+        findings.append(f)
+    seen = {}
+    for r in res.world.workers.requests:
+        seen[r["cid"]] = seen.get(r["cid"], 0) + 1
+    dup = [c for c, n in seen.items() if n > 1]
+    if dup:
+        findings.append({"property": PROP, "rule": "task-requested-again", "witness": None,
+                         "detail": "%s: correlation id %s was requested %d times" % (ctx, dup[0], seen[dup[0]])})
+    node = res.world.nodes[0]
+    state["armed"] = False      # the crash plan is over: nothing below may trigger another crash
+    state["k"] = len(case["plan"])
+    all_idle = bool(state["crash_idle"]) and all(state["crash_idle"])
+    state["all_idle"] = all_idle
+    if not findings and all_idle:
+        # every crash fell between two event handlings: same outcome as the crash-free run of the same case, and the
+        # record the API serves afterwards tells the same end as the terminal notification
+        ref = run_scenario(scn, seed, horizon=cfg.get("execution_ttl", 120) + 900)
+        sits = set(state.get("situations") or ())
+        for o in res.sim.broker.oplog:
+            if o[2] == "deliver" and o[4].get("redelivered") and o[3] not in (NODE, None) and \
+                    str(o[4].get("queue", "")).startswith("asl_workflow_events") and "-inst" not in str(o[4].get("queue")):
+                # the dead instance held an event taken from the SHARED queue (e.g. the start event while the first
+                # Task is in flight): the broker hands it to another instance, the reply still goes to the dead one's
+                sits.add("shared-queue-event-moved-to-other-instance")
+        wit = "idle" + "".join(":" + x for x in sorted(sits))
+        for ename, arn in sorted(res.exec_arns.items()):
+            out, ref_out = outcome(res, arn), outcome(ref, ref.exec_arns.get(ename))
+            if out is not None and ref_out is not None and out != ref_out:
+                findings.append({"property": PROP, "rule": "outcome-changed", "witness": wit,
+                                 "detail": "%s (engine idle at every crash): %s crash-free %r, with crashes %r" % (
+                                     ctx, ename, ref_out, out)})
+        t_end = res.sim.now - res.sim.epoch
+        if not findings and not node.dead and (cfg["store"] == "file" or t_end < cfg["execution_ttl"] - 1):
+            for ename, arn in sorted(res.exec_arns.items()):
+                out = outcome(res, arn)
+                if out is None or arn is None:
+                    continue
+                rec = res.world.describe(arn, node)
+                if rec["status"] != 200 or not isinstance(rec["json"], dict):
+                    # with the file-backed configuration records live in memory and are re-created only when an event
+                    # of the execution is handled after the restart; an execution that ended before is unknown
+                    if cfg["store"] == "redis":
+                        findings.append({"property": PROP, "rule": "record-lost-after-restart", "witness": None,
+                                         "detail": "%s: DescribeExecution(%s) -> %s %s although the records are in "
+                                                   "Redis" % (ctx, ename, rec["status"], str(rec["body"])[:120])})
+                    continue
+                if rec["json"].get("status") != out[0]:
+                    findings.append({"property": PROP, "rule": "record-disagrees-after-restart", "witness": None,
+                                     "detail": "%s: DescribeExecution(%s) says %s, terminal notification %s" % (
+                                         ctx, ename, rec["json"].get("status"), out[0])})
+    if res.sim.errors and not findings:
+        findings.append({"property": PROP, "rule": "engine-exception-after-restart",
+                         "witness": res.sim.errors[0][2].split("(")[0],
+                         "detail": "%s: %r" % (ctx, res.sim.errors[0][:3])})
+    return res, state, findings
+
+
+def run_multi(item, extra):
+    case, seed = multi_case(item, extra["tier"])
+    if case is None:
+        return {"evaluations": 1, "probes": {"skipped-generated": 1}, "findings": [], "distinct": []}
+    res, state, findings = check_multi(case, seed)
+    scn = case["scn"]
+    redel = sum(1 for o in res.sim.broker.oplog if o[2] == "deliver" and o[4].get("redelivered"))
+    probes = {"multi:runs": 1, "multi:crashes=%d" % min(state["crashes"], 4): 1, "multi:redeliveries": redel,
+              "multi:crash-inside-recovery": state["in_recovery"],
+              "multi:store=" + scn["config"]["store"]: 1, "multi:transport=" + scn["config"]["transport"]: 1,
+              "multi:nodes=%d" % scn["config"]["nodes"]: 1, "multi:policy=" + scn["config"]["policy"]: 1,
+              "multi:all-crashes-idle(outcome+record compared)": 1 if state.get("all_idle") else 0,
+              "multi:crash-while-idle": sum(1 for x in state["crash_idle"] if x),
+              "multi:crash-mid-handling": sum(1 for x in state["crash_idle"] if not x)}
+    for f in findings:
+        f.setdefault("seed", seed)
+        f["multi_case"] = case
+    return {"evaluations": 1, "sim_seconds": res.sim.now - res.sim.epoch, "steps": res.sim.steps,
+            "broker_ops": len(res.sim.broker.oplog), "interleavings": [res.sim.order_hash.hexdigest()[:16]],
+            "distinct": [common.sha([scn["machines"], case["plan"], res.sim.order_hash.hexdigest()])] if state["crashes"] else [],
+            "faults": {"crash": state["crashes"], "restart": state["restarts"]}, "probes": probes,
+            "findings": findings, "sample": None}
+
+
 def main(argv):
     if len(argv) > 1 and argv[0] == "--replay":
         with open(argv[1]) as f:
             rec = json.load(f)
+        if rec.get("multi_case"):
+            res, state, findings = check_multi(rec["multi_case"], rec["seed"])
+            same = [f for f in findings if f["rule"] == rec["rule"]]
+            print("replay %s: %s" % (argv[1], "REPRODUCED rule=%s" % rec["rule"] if same else "not reproduced"))
+            return 1 if same else 0
         scn = rec["scenario"]
         ref, info = reference(scn, rec["seed"])
         arn = ref.exec_arns.get("e1")
@@ -300,6 +528,9 @@ def main(argv):
         items += [(i, "generated", "canonical") for i in range(600)]
     rep = common.Report(PROP, level="fault_enumeration")
     for r in common.run_batch("checks.c04", "run_one", items, extra, chunk=1):
+        rep.absorb(r)
+    n_multi = 1500 if tier == "quick" else 60000
+    for r in common.run_batch("checks.c04", "run_multi", range(n_multi), extra):
         rep.absorb(r)
     rep.exhaustive = True
     return rep.finish(
